@@ -318,7 +318,8 @@ def run_property(spec, tier='quick', seed=0, root='/repo', jobs=None):
             confirmed = ok
             if not confirmed:
                 try:
-                    w, n = bounded_search(target, label_of(name), tier, seed, root)
+                    # a frame breach shows in whichever clause the shared state corrupts: any failing clause is its witness
+                    w, n = bounded_search(target, None if name.split('/')[-1].startswith('frame:') else label_of(name), tier, seed, root)
                 except Exception as e:
                     w, n = None, 0
                     rec['bounded_error'] = repr(e)
